@@ -1,24 +1,640 @@
-//! Harnesses mounted inside `v5::codec`.
+//! Harnesses mounted inside `v5::codec` (MQTT 5.0): C01 round trips per packet kind.
+//! The wire layout is checked by an independent reader written from the OASIS MQTT 5.0 text
+//! (property identifiers and reason code values are literals from the specification tables, not
+//! the crate's constants; properties are accepted in ANY order as the specification allows).
 use super::*;
+use crate::vh::{self, Rd};
 use crate::vk;
-use ntex_bytes::{BytePages, Bytes, BytesMut, ByteString};
+use ntex_bytes::{Buf, ByteString, BytePages, Bytes, BytesMut};
+use ntex_codec::{Decoder, Encoder};
+use std::num::{NonZeroU16, NonZeroU32};
 
-macro_rules! body_probe {
-    ($name:ident, $fb:expr, $n:expr, $uw:expr) => {
+#[cfg(kani)]
+use crate::mvec::Vec;
+
+pub(crate) fn enc5(codec: &Codec, item: Encoded) -> Result<Bytes, crate::error::EncodeError> {
+    let mut pages = BytePages::default();
+    match codec.encodev(item, &mut pages) {
+        Ok(()) => Ok(pages.freeze()),
+        Err(e) => {
+            assert!(pages.len() == 0, "a failed encode appends no bytes");
+            Err(e)
+        }
+    }
+}
+
+/// body decode with a CONSTANT first byte (see h_v3.rs::dec_body for why)
+pub(crate) fn dec_body5(out: &Bytes, first: u8) -> Result<Packet, crate::error::DecodeError> {
+    let mut body = out.clone();
+    let mut r = Rd::new(out);
+    let _ = r.u8();
+    let _ = r.varint();
+    let _hdr = body.split_to(r.pos);
+    decode::decode_packet(body, first)
+}
+
+pub(crate) fn rd_header5<'a>(out: &'a Bytes, first: u8) -> (Rd<'a>, u32) {
+    let mut r = Rd::new(out);
+    assert!(r.u8() == first, "first byte (type + reserved flags)");
+    let rl = r.varint();
+    assert!(!r.bad);
+    assert!(rl as usize == r.left(), "Remaining Length == bytes that follow");
+    (r, rl)
+}
+
+pub(crate) fn any_user_props<const K: usize, const S: usize>() -> UserProperties {
+    let n = vk::any_len(K);
+    let mut v = Vec::new();
+    let mut i = 0;
+    while i < n {
+        v.push((vh::any_str::<S>(), vh::any_str::<S>()));
+        i += 1;
+    }
+    v
+}
+
+/// start of a property section: returns the absolute end offset
+pub(crate) fn props_begin(r: &mut Rd<'_>) -> usize {
+    let n = r.varint() as usize;
+    if n > r.left() {
+        r.bad = true;
+        return r.pos;
+    }
+    r.pos + n
+}
+
+/// reads one user property (id 0x26 already consumed) and compares it with `ups[*idx]`
+pub(crate) fn expect_user_prop(r: &mut Rd<'_>, ups: &[UserProperty], idx: &mut usize) -> bool {
+    if *idx >= ups.len() {
+        r.bad = true;
+        return false;
+    }
+    let ok = r.expect_lp(ups[*idx].0.as_bytes()) & r.expect_lp(ups[*idx].1.as_bytes());
+    *idx += 1;
+    ok
+}
+
+// ---- reason code tables from the specification (name -> value) ----------------------------------
+pub(crate) fn any_puback_reason() -> (PublishAckReason, u8) {
+    let k = vk::any_u8();
+    vk::assume(k < 9);
+    match k {
+        0 => (PublishAckReason::Success, 0x00),
+        1 => (PublishAckReason::NoMatchingSubscribers, 0x10),
+        2 => (PublishAckReason::UnspecifiedError, 0x80),
+        3 => (PublishAckReason::ImplementationSpecificError, 0x83),
+        4 => (PublishAckReason::NotAuthorized, 0x87),
+        5 => (PublishAckReason::TopicNameInvalid, 0x90),
+        6 => (PublishAckReason::PacketIdentifierInUse, 0x91),
+        7 => (PublishAckReason::QuotaExceeded, 0x97),
+        _ => (PublishAckReason::PayloadFormatInvalid, 0x99),
+    }
+}
+pub(crate) fn any_puback2_reason() -> (PublishAck2Reason, u8) {
+    if vk::any_bool() { (PublishAck2Reason::Success, 0x00) } else { (PublishAck2Reason::PacketIdNotFound, 0x92) }
+}
+pub(crate) fn any_suback_reason() -> (SubscribeAckReason, u8) {
+    let k = vk::any_u8();
+    vk::assume(k < 12);
+    match k {
+        0 => (SubscribeAckReason::GrantedQos0, 0x00),
+        1 => (SubscribeAckReason::GrantedQos1, 0x01),
+        2 => (SubscribeAckReason::GrantedQos2, 0x02),
+        3 => (SubscribeAckReason::UnspecifiedError, 0x80),
+        4 => (SubscribeAckReason::ImplementationSpecificError, 0x83),
+        5 => (SubscribeAckReason::NotAuthorized, 0x87),
+        6 => (SubscribeAckReason::TopicFilterInvalid, 0x8F),
+        7 => (SubscribeAckReason::PacketIdentifierInUse, 0x91),
+        8 => (SubscribeAckReason::QuotaExceeded, 0x97),
+        9 => (SubscribeAckReason::SharedSubscriptionNotSupported, 0x9E),
+        10 => (SubscribeAckReason::SubscriptionIdentifiersNotSupported, 0xA1),
+        _ => (SubscribeAckReason::WildcardSubscriptionsNotSupported, 0xA2),
+    }
+}
+pub(crate) fn any_unsuback_reason() -> (UnsubscribeAckReason, u8) {
+    let k = vk::any_u8();
+    vk::assume(k < 7);
+    match k {
+        0 => (UnsubscribeAckReason::Success, 0x00),
+        1 => (UnsubscribeAckReason::NoSubscriptionExisted, 0x11),
+        2 => (UnsubscribeAckReason::UnspecifiedError, 0x80),
+        3 => (UnsubscribeAckReason::ImplementationSpecificError, 0x83),
+        4 => (UnsubscribeAckReason::NotAuthorized, 0x87),
+        5 => (UnsubscribeAckReason::TopicFilterInvalid, 0x8F),
+        _ => (UnsubscribeAckReason::PacketIdentifierInUse, 0x91),
+    }
+}
+pub(crate) fn any_auth_reason() -> (AuthReasonCode, u8) {
+    let k = vk::any_u8();
+    vk::assume(k < 3);
+    match k {
+        0 => (AuthReasonCode::Success, 0x00),
+        1 => (AuthReasonCode::ContinueAuth, 0x18),
+        _ => (AuthReasonCode::ReAuth, 0x19),
+    }
+}
+pub(crate) fn any_disconnect_reason() -> (DisconnectReasonCode, u8) {
+    use DisconnectReasonCode::*;
+    let k = vk::any_u8();
+    vk::assume(k < 30);
+    match k {
+        0 => (NormalDisconnection, 0x00),
+        1 => (DisconnectWithWillMessage, 0x04),
+        2 => (UnspecifiedError, 0x80),
+        3 => (MalformedPacket, 0x81),
+        4 => (ProtocolError, 0x82),
+        5 => (ImplementationSpecificError, 0x83),
+        6 => (NotAuthorized, 0x87),
+        7 => (ServerBusy, 0x89),
+        8 => (ServerShuttingDown, 0x8B),
+        9 => (BadAuthenticationMethod, 0x8C),
+        10 => (KeepAliveTimeout, 0x8D),
+        11 => (SessionTakenOver, 0x8E),
+        12 => (TopicFilterInvalid, 0x8F),
+        13 => (TopicNameInvalid, 0x90),
+        14 => (ReceiveMaximumExceeded, 0x93),
+        15 => (TopicAliasInvalid, 0x94),
+        16 => (PacketTooLarge, 0x95),
+        17 => (MessageRateTooHigh, 0x96),
+        18 => (QuotaExceeded, 0x97),
+        19 => (AdministrativeAction, 0x98),
+        20 => (PayloadFormatInvalid, 0x99),
+        21 => (RetainNotSupported, 0x9A),
+        22 => (QosNotSupported, 0x9B),
+        23 => (UseAnotherServer, 0x9C),
+        24 => (ServerMoved, 0x9D),
+        25 => (SharedSubscriptionNotSupported, 0x9E),
+        26 => (ConnectionRateExceeded, 0x9F),
+        27 => (MaximumConnectTime, 0xA0),
+        28 => (SubscriptionIdentifiersNotSupported, 0xA1),
+        _ => (WildcardSubscriptionsNotSupported, 0xA2),
+    }
+}
+pub(crate) fn any_connack_reason() -> (ConnectAckReason, u8) {
+    use ConnectAckReason::*;
+    let k = vk::any_u8();
+    vk::assume(k < 22);
+    match k {
+        0 => (Success, 0x00),
+        1 => (UnspecifiedError, 0x80),
+        2 => (MalformedPacket, 0x81),
+        3 => (ProtocolError, 0x82),
+        4 => (ImplementationSpecificError, 0x83),
+        5 => (UnsupportedProtocolVersion, 0x84),
+        6 => (ClientIdentifierNotValid, 0x85),
+        7 => (BadUserNameOrPassword, 0x86),
+        8 => (NotAuthorized, 0x87),
+        9 => (ServerUnavailable, 0x88),
+        10 => (ServerBusy, 0x89),
+        11 => (Banned, 0x8A),
+        12 => (BadAuthenticationMethod, 0x8C),
+        13 => (TopicNameInvalid, 0x90),
+        14 => (PacketTooLarge, 0x95),
+        15 => (QuotaExceeded, 0x97),
+        16 => (PayloadFormatInvalid, 0x99),
+        17 => (RetainNotSupported, 0x9A),
+        18 => (QosNotSupported, 0x9B),
+        19 => (UseAnotherServer, 0x9C),
+        20 => (ServerMoved, 0x9D),
+        _ => (ConnectionRateExceeded, 0x9F),
+    }
+}
+
+// ---- the ack family: PUBACK PUBREC (PublishAck), PUBREL PUBCOMP (PublishAck2) -------------------
+/// spec reader for "packet id, [reason code, [properties: user property*, reason string?]]"
+/// (3.4.2 / 3.5.2 / 3.6.2 / 3.7.2): absent reason = 0x00, absent property length = no properties
+pub(crate) fn spec_check_ack(r: &mut Rd<'_>, id: u16, reason: u8, ups: &[UserProperty], rs: &Option<ByteString>) -> bool {
+    let mut ok = r.u16() == id;
+    if r.left() == 0 {
+        return ok && reason == 0 && ups.is_empty() && rs.is_none();
+    }
+    ok &= r.u8() == reason;
+    if r.left() == 0 {
+        return ok && ups.is_empty() && rs.is_none();
+    }
+    ok &= spec_check_diag_props(r, ups, rs);
+    ok
+}
+
+/// property section that may hold only User Property (0x26, repeatable, order preserved) and
+/// Reason String (0x1F, at most once), in any relative order
+pub(crate) fn spec_check_diag_props(r: &mut Rd<'_>, ups: &[UserProperty], rs: &Option<ByteString>) -> bool {
+    let end = props_begin(r);
+    let mut ok = true;
+    let mut seen_rs = false;
+    let mut idx = 0;
+    let mut guard = 0;
+    while r.pos < end && !r.bad && guard < 8 {
+        match r.u8() {
+            0x26 => ok &= expect_user_prop(r, ups, &mut idx),
+            0x1F => {
+                ok &= !seen_rs;
+                seen_rs = true;
+                match rs {
+                    Some(s) => ok &= r.expect_lp(s.as_bytes()),
+                    None => ok = false,
+                }
+            }
+            _ => ok = false,
+        }
+        guard += 1;
+    }
+    ok && r.pos == end && idx == ups.len() && seen_rs == rs.is_some()
+}
+
+macro_rules! rt5_ack {
+    ($name:ident, $variant:ident, $ty:ident, $reason:ident, $first:expr) => {
         vharness! {
-            fn $name() unwind($uw) {
-                let data: [u8; $n] = vk::any_bytes::<$n>();
-                let len = vk::any_len($n);
-                let buf = vk::bytes_of(data, len);
-                let r = decode::decode_packet(buf, $fb);
-                vcover!(matches!(r, Ok(_)), "ok");
-                vcover!(matches!(r, Err(_)), "err");
+            fn $name() unwind(5) {
+                let (reason_code, num) = $reason();
+                let pkt = $ty {
+                    packet_id: vh::any_nz16(),
+                    reason_code,
+                    properties: any_user_props::<1, 1>(),
+                    reason_string: vh::any_opt_str::<1>(),
+                };
+                let codec = Codec::new();
+                let out = match enc5(&codec, Encoded::Packet(Packet::$variant(pkt.clone()))) { Ok(o) => o, Err(_) => { assert!(false); return; } };
+                let (mut r, _rl) = rd_header5(&out, $first);
+                assert!(spec_check_ack(&mut r, pkt.packet_id.get(), num, &pkt.properties, &pkt.reason_string));
+                assert!(r.at_end() && !r.bad);
+                assert!(dec_body5(&out, $first) == Ok(Packet::$variant(pkt.clone())));
+                vcover!(pkt.properties.len() == 1 && pkt.reason_string.is_some(), "user property and reason string");
+                vcover!(pkt.properties.is_empty() && pkt.reason_string.is_none() && num != 0, "bare negative ack");
             }
         }
     };
 }
-body_probe!(p5_puback8, 0x40, 8, 10);
-body_probe!(p5_puback12, 0x40, 12, 14);
-body_probe!(p5_sub10, 0x82, 10, 12);
-body_probe!(p5_disc10, 0xE0, 10, 12);
-body_probe!(p5_connack10, 0x20, 10, 12);
+//@ props: C01
+//@ tier: quick
+//@ functions: v5::Codec::encodev, EncodeLtd for Packet/PublishAck, ack_props::{encoded_size,encode,decode}, encode_opt_props, encoded_size_opt_props, var_int_len_from_size, decode::decode_packet, PublishAck::decode
+//@ bounds: packet id full width; all 9 reason codes; 0..=1 user property with 0..=1-byte key/value; optional reason string of 0..=1 byte
+//@ unwindset: utf8_is_valid=3 slice_eq=3 expect_lp=3 ack_props::decode=4 spec_check_diag_props=4 any_user_props=3 encode_opt_props=3 encoded_size_opt_props=3 clone=3
+//@ assumes: strings well-formed UTF-8
+//@ desc: v5 PUBACK round trip; reason code values and property ids 0x26/0x1F checked against the specification tables by the independent reader
+rt5_ack!(rt5_puback, PublishAck, PublishAck, any_puback_reason, 0x40);
+//@ props: C01
+//@ tier: quick
+//@ functions: v5::Codec::encodev, EncodeLtd for PublishAck, ack_props::*, decode::decode_packet, PublishAck::decode
+//@ bounds: as rt5_puback
+//@ unwindset: utf8_is_valid=3 slice_eq=3 expect_lp=3 ack_props::decode=4 spec_check_diag_props=4 any_user_props=3 encode_opt_props=3 encoded_size_opt_props=3 clone=3
+//@ assumes: strings well-formed UTF-8
+//@ desc: v5 PUBREC round trip (0x50)
+rt5_ack!(rt5_pubrec, PublishReceived, PublishAck, any_puback_reason, 0x50);
+//@ props: C01
+//@ tier: quick
+//@ functions: v5::Codec::encodev, EncodeLtd for PublishAck2, ack_props::*, decode::decode_packet, PublishAck2::decode
+//@ bounds: packet id full width; both reason codes; 0..=1 user property (0..=1-byte strings); optional reason string 0..=1 byte
+//@ unwindset: utf8_is_valid=3 slice_eq=3 expect_lp=3 ack_props::decode=4 spec_check_diag_props=4 any_user_props=3 encode_opt_props=3 encoded_size_opt_props=3 clone=3
+//@ assumes: strings well-formed UTF-8
+//@ desc: v5 PUBREL round trip (0x62, reserved flags 0010)
+rt5_ack!(rt5_pubrel, PublishRelease, PublishAck2, any_puback2_reason, 0x62);
+//@ props: C01
+//@ tier: quick
+//@ functions: v5::Codec::encodev, EncodeLtd for PublishAck2, ack_props::*, decode::decode_packet, PublishAck2::decode
+//@ bounds: as rt5_pubrel
+//@ unwindset: utf8_is_valid=3 slice_eq=3 expect_lp=3 ack_props::decode=4 spec_check_diag_props=4 any_user_props=3 encode_opt_props=3 encoded_size_opt_props=3 clone=3
+//@ assumes: strings well-formed UTF-8
+//@ desc: v5 PUBCOMP round trip (0x70)
+rt5_ack!(rt5_pubcomp, PublishComplete, PublishAck2, any_puback2_reason, 0x70);
+
+vharness! {
+    //@ props: C01
+    //@ tier: quick
+    //@ expect: fail
+    //@ unwindset: utf8_is_valid=3 slice_eq=3 expect_lp=3 ack_props::decode=4 any_user_props=3 encode_opt_props=3 encoded_size_opt_props=3 clone=3
+    //@ desc: reachability twin of the v5 ack round trips (claims decode never returns the packet)
+    fn twin_rt5_ack() unwind(5) {
+        let (reason_code, _num) = any_puback_reason();
+        let pkt = PublishAck {
+            packet_id: vh::any_nz16(),
+            reason_code,
+            properties: any_user_props::<1, 1>(),
+            reason_string: vh::any_opt_str::<1>(),
+        };
+        let codec = Codec::new();
+        if let Ok(out) = enc5(&codec, Encoded::Packet(Packet::PublishAck(pkt.clone()))) {
+            assert!(dec_body5(&out, 0x40) != Ok(Packet::PublishAck(pkt)));
+        }
+    }
+}
+
+// ---- PINGREQ / PINGRESP -------------------------------------------------------------------------
+macro_rules! rt5_empty {
+    ($name:ident, $variant:ident, $first:expr) => {
+        vharness! {
+            fn $name() unwind(5) {
+                let codec = Codec::new();
+                let out = match enc5(&codec, Encoded::Packet(Packet::$variant)) { Ok(o) => o, Err(_) => { assert!(false); return; } };
+                assert!(out.len() == 2 && out[0] == $first && out[1] == 0);
+                assert!(dec_body5(&out, $first) == Ok(Packet::$variant));
+                vcover!(out.len() == 2, "two byte frame");
+            }
+        }
+    };
+}
+//@ props: C01
+//@ tier: quick
+//@ functions: v5::Codec::encodev, EncodeLtd for Packet, decode::decode_packet
+//@ bounds: none (no fields)
+//@ desc: v5 PINGREQ is exactly C0 00 and decodes back
+rt5_empty!(rt5_pingreq, PingRequest, 0xC0);
+//@ props: C01
+//@ tier: quick
+//@ functions: v5::Codec::encodev, EncodeLtd for Packet, decode::decode_packet
+//@ bounds: none (no fields)
+//@ desc: v5 PINGRESP is exactly D0 00 and decodes back
+rt5_empty!(rt5_pingresp, PingResponse, 0xD0);
+
+// ---- SUBACK / UNSUBACK --------------------------------------------------------------------------
+macro_rules! rt5_suback {
+    ($name:ident, $variant:ident, $ty:ident, $reason:ident, $first:expr) => {
+        vharness! {
+            fn $name() unwind(5) {
+                let n = vk::any_len(2);
+                let mut status = Vec::new();
+                let mut wire = [0u8; 2];
+                let mut i = 0;
+                while i < n {
+                    let (c, w) = $reason();
+                    status.push(c);
+                    wire[i] = w;
+                    i += 1;
+                }
+                let pkt = $ty {
+                    packet_id: vh::any_nz16(),
+                    properties: any_user_props::<1, 1>(),
+                    reason_string: vh::any_opt_str::<1>(),
+                    status,
+                };
+                let codec = Codec::new();
+                let out = match enc5(&codec, Encoded::Packet(Packet::$variant(pkt.clone()))) { Ok(o) => o, Err(_) => { assert!(false); return; } };
+                let (mut r, _rl) = rd_header5(&out, $first);
+                assert!(r.u16() == pkt.packet_id.get());
+                assert!(spec_check_diag_props(&mut r, &pkt.properties, &pkt.reason_string));
+                assert!(r.expect_raw(&wire[..n]));
+                assert!(r.at_end() && !r.bad);
+                assert!(dec_body5(&out, $first) == Ok(Packet::$variant(pkt.clone())));
+                vcover!(n == 2 && pkt.properties.len() == 1 && pkt.reason_string.is_some(), "two codes, user property, reason string");
+                vcover!(n == 0, "no reason codes");
+            }
+        }
+    };
+}
+//@ props: C01
+//@ tier: quick
+//@ functions: v5::Codec::encodev, EncodeLtd for SubscribeAck, ack_props::*, decode::decode_packet, SubscribeAck::decode
+//@ bounds: packet id full width; 0..=2 reason codes out of all 12; 0..=1 user property (0..=1-byte strings); optional reason string 0..=1 byte
+//@ unwindset: utf8_is_valid=3 slice_eq=3 expect_lp=3 expect_raw=3 ack_props::decode=4 spec_check_diag_props=4 any_user_props=3 encode_opt_props=3 encoded_size_opt_props=3 clone=4 SubscribeAck=4
+//@ assumes: strings well-formed UTF-8
+//@ desc: v5 SUBACK round trip (0x90 RL id props codes*), reason code values from spec table 3.9.3
+rt5_suback!(rt5_suback, SubscribeAck, SubscribeAck, any_suback_reason, 0x90);
+//@ props: C01
+//@ tier: quick
+//@ functions: v5::Codec::encodev, EncodeLtd for UnsubscribeAck, ack_props::*, reduce_limit, decode::decode_packet, UnsubscribeAck::decode
+//@ bounds: packet id full width; 0..=2 reason codes out of all 7; 0..=1 user property; optional reason string 0..=1 byte
+//@ unwindset: utf8_is_valid=3 slice_eq=3 expect_lp=3 expect_raw=3 ack_props::decode=4 spec_check_diag_props=4 any_user_props=3 encode_opt_props=3 encoded_size_opt_props=3 clone=4 UnsubscribeAck=4
+//@ assumes: strings well-formed UTF-8
+//@ desc: v5 UNSUBACK round trip (0xB0), reason code values from spec table 3.11.3
+rt5_suback!(rt5_unsuback, UnsubscribeAck, UnsubscribeAck, any_unsuback_reason, 0xB0);
+
+// ---- SUBSCRIBE / UNSUBSCRIBE --------------------------------------------------------------------
+fn any_sub_opts() -> (SubscriptionOptions, u8) {
+    let qos = vh::any_qos();
+    let no_local = vk::any_bool();
+    let rap = vk::any_bool();
+    let rh = vk::any_u8();
+    vk::assume(rh < 3);
+    let retain_handling = match rh {
+        0 => RetainHandling::AtSubscribe,
+        1 => RetainHandling::AtSubscribeNew,
+        _ => RetainHandling::NoAtSubscribe,
+    };
+    // 3.8.3.1: bits 0-1 QoS, bit 2 NL, bit 3 RAP, bits 4-5 retain handling, bits 6-7 reserved 0
+    let wire = vh::qos_num(qos) | ((no_local as u8) << 2) | ((rap as u8) << 3) | (rh << 4);
+    (SubscriptionOptions { qos, no_local, retain_as_published: rap, retain_handling }, wire)
+}
+
+/// a legal Subscription Identifier: 1..=268435455 (3.8.2.1.2)
+fn any_sub_id() -> NonZeroU32 {
+    let v = vh::any_nz32();
+    vk::assume(v.get() <= 268_435_455);
+    v
+}
+
+vharness! {
+    //@ props: C01
+    //@ tier: quick
+    //@ functions: v5::Codec::encodev, EncodeLtd for Subscribe, Encode for SubscriptionOptions/UserProperties, var_int_len, write_variable_length, decode::decode_packet, Subscribe::decode, Decode for SubscriptionOptions
+    //@ bounds: packet id full width; optional subscription identifier over its whole legal range 1..=268435455; 0..=1 user property (0..=1-byte strings); 0..=2 topic filters of 0..=1 byte with all option bits symbolic
+    //@ unwindset: utf8_is_valid=3 slice_eq=3 expect_lp=3 Subscribe=4 any_user_props=3 clone=4 decode_variable_length_cursor=6
+    //@ assumes: strings well-formed UTF-8; subscription identifier within the MQTT range
+    //@ desc: v5 SUBSCRIBE round trip (0x82 RL id props (filter opts)*): option byte layout per 3.8.3.1, property 0x0B as variable byte integer
+    fn rt5_subscribe() unwind(5) {
+        let n = vk::any_len(2);
+        let mut topic_filters = Vec::new();
+        let mut wire = [0u8; 2];
+        let mut i = 0;
+        while i < n {
+            let (o, w) = any_sub_opts();
+            topic_filters.push((vh::any_str::<1>(), o));
+            wire[i] = w;
+            i += 1;
+        }
+        let pkt = Subscribe {
+            packet_id: vh::any_nz16(),
+            id: if vk::any_bool() { Some(any_sub_id()) } else { None },
+            user_properties: any_user_props::<1, 1>(),
+            topic_filters,
+        };
+        let codec = Codec::new();
+        let out = match enc5(&codec, Encoded::Packet(Packet::Subscribe(pkt.clone()))) { Ok(o) => o, Err(_) => { assert!(false); return; } };
+        let (mut r, _rl) = rd_header5(&out, 0x82);
+        assert!(r.u16() == pkt.packet_id.get());
+        let end = props_begin(&mut r);
+        let mut seen_id = false;
+        let mut idx = 0;
+        let mut guard = 0;
+        while r.pos < end && !r.bad && guard < 4 {
+            match r.u8() {
+                0x0B => {
+                    assert!(!seen_id);
+                    seen_id = true;
+                    let v = r.varint();
+                    assert!(pkt.id.map(|x| x.get()) == Some(v));
+                }
+                0x26 => assert!(expect_user_prop(&mut r, &pkt.user_properties, &mut idx)),
+                _ => assert!(false),
+            }
+            guard += 1;
+        }
+        assert!(r.pos == end && idx == pkt.user_properties.len() && seen_id == pkt.id.is_some());
+        let mut i = 0;
+        while i < n {
+            assert!(r.expect_lp(pkt.topic_filters[i].0.as_bytes()));
+            assert!(r.u8() == wire[i]);
+            i += 1;
+        }
+        assert!(r.at_end() && !r.bad);
+        assert!(dec_body5(&out, 0x82) == Ok(Packet::Subscribe(pkt.clone())));
+        vcover!(n == 2 && pkt.id.is_some() && pkt.user_properties.len() == 1, "two filters, id, user property");
+        vcover!(pkt.id.map(|x| x.get()) == Some(268_435_455), "largest subscription identifier");
+        vcover!(pkt.id.map(|x| x.get()) == Some(128), "two-byte subscription identifier");
+    }
+}
+
+vharness! {
+    //@ props: C01
+    //@ tier: quick
+    //@ functions: v5::Codec::encodev, EncodeLtd for Unsubscribe, decode::decode_packet, Unsubscribe::decode
+    //@ bounds: packet id full width; 0..=1 user property (0..=1-byte strings); 0..=2 topic filters of 0..=1 byte
+    //@ unwindset: utf8_is_valid=3 slice_eq=3 expect_lp=3 Unsubscribe=4 any_user_props=3 clone=4 decode_variable_length_cursor=6
+    //@ assumes: strings well-formed UTF-8
+    //@ desc: v5 UNSUBSCRIBE round trip (0xA2 RL id props filter*)
+    fn rt5_unsubscribe() unwind(5) {
+        let n = vk::any_len(2);
+        let mut topic_filters = Vec::new();
+        let mut i = 0;
+        while i < n {
+            topic_filters.push(vh::any_str::<1>());
+            i += 1;
+        }
+        let pkt = Unsubscribe {
+            packet_id: vh::any_nz16(),
+            user_properties: any_user_props::<1, 1>(),
+            topic_filters,
+        };
+        let codec = Codec::new();
+        let out = match enc5(&codec, Encoded::Packet(Packet::Unsubscribe(pkt.clone()))) { Ok(o) => o, Err(_) => { assert!(false); return; } };
+        let (mut r, _rl) = rd_header5(&out, 0xA2);
+        assert!(r.u16() == pkt.packet_id.get());
+        let end = props_begin(&mut r);
+        let mut idx = 0;
+        let mut guard = 0;
+        while r.pos < end && !r.bad && guard < 4 {
+            match r.u8() {
+                0x26 => assert!(expect_user_prop(&mut r, &pkt.user_properties, &mut idx)),
+                _ => assert!(false),
+            }
+            guard += 1;
+        }
+        assert!(r.pos == end && idx == pkt.user_properties.len());
+        let mut i = 0;
+        while i < n {
+            assert!(r.expect_lp(pkt.topic_filters[i].as_bytes()));
+            i += 1;
+        }
+        assert!(r.at_end() && !r.bad);
+        assert!(dec_body5(&out, 0xA2) == Ok(Packet::Unsubscribe(pkt.clone())));
+        vcover!(n == 2 && pkt.user_properties.len() == 1, "two filters and a user property");
+    }
+}
+
+// ---- DISCONNECT / AUTH --------------------------------------------------------------------------
+vharness! {
+    //@ props: C01 C15
+    //@ tier: quick
+    //@ functions: v5::Codec::encodev, EncodeLtd for Disconnect, encode_property, encode_opt_props, encoded_size_opt_props, reduce_limit, var_int_len_from_size, decode::decode_packet, Disconnect::decode
+    //@ bounds: all 30 reason codes; optional session expiry (u32 full width); optional server reference, reason string (0..=1 byte each); 0..=1 user property (0..=1-byte strings)
+    //@ unwindset: utf8_is_valid=3 slice_eq=3 expect_lp=3 Disconnect=5 any_user_props=3 encode_opt_props=3 encoded_size_opt_props=3 clone=3 decode_variable_length_cursor=6
+    //@ assumes: strings well-formed UTF-8
+    //@ desc: v5 DISCONNECT round trip (0xE0 RL reason props): reason code values per spec table 3.14.2.1; property ids 0x11 0x1C 0x1F 0x26
+    fn rt5_disconnect() unwind(5) {
+        let (reason_code, num) = any_disconnect_reason();
+        let pkt = Disconnect {
+            reason_code,
+            session_expiry_interval_secs: vh::any_opt_u32(),
+            server_reference: vh::any_opt_str::<1>(),
+            reason_string: vh::any_opt_str::<1>(),
+            user_properties: any_user_props::<1, 1>(),
+        };
+        let codec = Codec::new();
+        let out = match enc5(&codec, Encoded::Packet(Packet::Disconnect(pkt.clone()))) { Ok(o) => o, Err(_) => { assert!(false); return; } };
+        let (mut r, rl) = rd_header5(&out, 0xE0);
+        if rl == 0 {
+            // 3.14.2.1: RL 0 means reason 0x00 and no properties
+            assert!(num == 0 && pkt.session_expiry_interval_secs.is_none() && pkt.server_reference.is_none()
+                && pkt.reason_string.is_none() && pkt.user_properties.is_empty());
+        } else {
+            assert!(r.u8() == num);
+            if r.left() > 0 {
+                let end = props_begin(&mut r);
+                let (mut s11, mut s1c, mut s1f) = (false, false, false);
+                let mut idx = 0;
+                let mut guard = 0;
+                while r.pos < end && !r.bad && guard < 6 {
+                    match r.u8() {
+                        0x11 => { assert!(!s11); s11 = true; assert!(Some(r.u32()) == pkt.session_expiry_interval_secs); }
+                        0x1C => { assert!(!s1c); s1c = true; match &pkt.server_reference { Some(s) => assert!(r.expect_lp(s.as_bytes())), None => assert!(false) } }
+                        0x1F => { assert!(!s1f); s1f = true; match &pkt.reason_string { Some(s) => assert!(r.expect_lp(s.as_bytes())), None => assert!(false) } }
+                        0x26 => assert!(expect_user_prop(&mut r, &pkt.user_properties, &mut idx)),
+                        _ => assert!(false),
+                    }
+                    guard += 1;
+                }
+                assert!(r.pos == end && idx == pkt.user_properties.len());
+                assert!(s11 == pkt.session_expiry_interval_secs.is_some());
+                assert!(s1c == pkt.server_reference.is_some());
+                assert!(s1f == pkt.reason_string.is_some());
+            } else {
+                assert!(pkt.session_expiry_interval_secs.is_none() && pkt.server_reference.is_none()
+                    && pkt.reason_string.is_none() && pkt.user_properties.is_empty());
+            }
+        }
+        assert!(r.at_end() && !r.bad);
+        assert!(dec_body5(&out, 0xE0) == Ok(Packet::Disconnect(pkt.clone())));
+        vcover!(pkt.session_expiry_interval_secs.is_some() && pkt.server_reference.is_some() && pkt.reason_string.is_some() && pkt.user_properties.len() == 1, "all four properties");
+        vcover!(num == 0x8D, "keep alive timeout");
+    }
+}
+
+vharness! {
+    //@ props: C01
+    //@ tier: quick
+    //@ functions: v5::Codec::encodev, EncodeLtd for Auth, encode_property, encode_opt_props, encoded_size_opt_props, reduce_limit, var_int_len_from_size, decode::decode_packet, Auth::decode
+    //@ bounds: all 3 reason codes; optional auth method (0..=1 byte), auth data (0..=1 byte), reason string (0..=1 byte); 0..=1 user property (0..=1-byte strings)
+    //@ unwindset: utf8_is_valid=3 slice_eq=3 expect_lp=3 Auth=5 any_user_props=3 encode_opt_props=3 encoded_size_opt_props=3 clone=3 decode_variable_length_cursor=6
+    //@ assumes: strings well-formed UTF-8
+    //@ desc: v5 AUTH round trip (0xF0 RL reason props): reason codes 0x00 0x18 0x19; property ids 0x15 0x16 0x1F 0x26
+    fn rt5_auth() unwind(5) {
+        let (reason_code, num) = any_auth_reason();
+        let pkt = Auth {
+            reason_code,
+            auth_method: vh::any_opt_str::<1>(),
+            auth_data: vh::any_opt_bin::<1>(),
+            reason_string: vh::any_opt_str::<1>(),
+            user_properties: any_user_props::<1, 1>(),
+        };
+        let codec = Codec::new();
+        let out = match enc5(&codec, Encoded::Packet(Packet::Auth(pkt.clone()))) { Ok(o) => o, Err(_) => { assert!(false); return; } };
+        let (mut r, rl) = rd_header5(&out, 0xF0);
+        if rl == 0 {
+            assert!(num == 0 && pkt.auth_method.is_none() && pkt.auth_data.is_none() && pkt.reason_string.is_none() && pkt.user_properties.is_empty());
+        } else {
+            assert!(r.u8() == num);
+            if r.left() > 0 {
+                let end = props_begin(&mut r);
+                let (mut s15, mut s16, mut s1f) = (false, false, false);
+                let mut idx = 0;
+                let mut guard = 0;
+                while r.pos < end && !r.bad && guard < 6 {
+                    match r.u8() {
+                        0x15 => { assert!(!s15); s15 = true; match &pkt.auth_method { Some(s) => assert!(r.expect_lp(s.as_bytes())), None => assert!(false) } }
+                        0x16 => { assert!(!s16); s16 = true; match &pkt.auth_data { Some(s) => assert!(r.expect_lp(s)), None => assert!(false) } }
+                        0x1F => { assert!(!s1f); s1f = true; match &pkt.reason_string { Some(s) => assert!(r.expect_lp(s.as_bytes())), None => assert!(false) } }
+                        0x26 => assert!(expect_user_prop(&mut r, &pkt.user_properties, &mut idx)),
+                        _ => assert!(false),
+                    }
+                    guard += 1;
+                }
+                assert!(r.pos == end && idx == pkt.user_properties.len());
+                assert!(s15 == pkt.auth_method.is_some() && s16 == pkt.auth_data.is_some() && s1f == pkt.reason_string.is_some());
+            } else {
+                assert!(pkt.auth_method.is_none() && pkt.auth_data.is_none() && pkt.reason_string.is_none() && pkt.user_properties.is_empty());
+            }
+        }
+        assert!(r.at_end() && !r.bad);
+        assert!(dec_body5(&out, 0xF0) == Ok(Packet::Auth(pkt.clone())));
+        vcover!(pkt.auth_method.is_some() && pkt.auth_data.is_some() && pkt.reason_string.is_some() && pkt.user_properties.len() == 1, "all four properties");
+    }
+}
